@@ -57,12 +57,21 @@ def rel_cases(rng, quick):
         th.update(PTO=2, PTODIS=2)
     nf = runs.nf_spec(cards.theory_card(**th), Q2)
     pairs = [(1, 3)] + ([(2, 4)] if nf >= 4 else []) + ([(1, 5), (3, 5)] if nf >= 5 else [])
-    a, b = rng.choice(pairs)
-    sw = lambda pid, a=a, b=b: {a: b, b: a, -a: -b, -b: -a}.get(pid, pid)
-    # also for a heavy-flavour-tagged observable in the massless scheme (the tagged quark couples, all active quarks share the singlet weight)
+    # also for a heavy-flavour-tagged observable in the massless scheme (the tagged quark couples, all active quarks share the singlet weight):
+    # there the charm row is NOT the up row (only charm has the non-singlet part), so only pairs of untagged quarks are compared
     hv = rng.choice(["total", "total", "charm"]) if nf >= 5 else "total"
+    if hv == "charm":
+        pairs = [pr for pr in pairs if 4 not in pr]
+    a, b = rng.choice(pairs)
+    sw = swap_map(a, b)
     out.append(("equal_charge_swap", kind + "_" + hv, th, ob, th, ob, sw, 1.0))
     return [(n, name, x, Q2, tA, oA, tB, oB, m, s) for (n, name, tA, oA, tB, oB, m, s) in out]
+
+
+def swap_map(a, b):
+    sw = lambda pid, a=a, b=b: {a: b, b: a, -a: -b, -b: -a}.get(pid, pid)
+    sw.pair = (a, b)
+    return sw
 
 
 def run_rel(rel):
@@ -75,7 +84,7 @@ def run_rel(rel):
 
 def describe(rel):
     n, name, x, Q2, tA, oA, tB, oB, m, s = rel
-    return dict(relation=n, observable=name, x=x, Q2=Q2, theoryA=tA, obsA=oA, theoryB=tB, obsB=oB, sign=s)
+    return dict(relation=n, observable=name, x=x, Q2=Q2, theoryA=tA, obsA=oA, theoryB=tB, obsB=oB, sign=s, pair=list(getattr(m, "pair", ())))
 
 
 def patrol(chk, n, wide=False):
@@ -123,7 +132,10 @@ def replay(path):
         print("replay names a broken theorem/correspondence only:", r["what"]); return 1
     m = {"cc_conjugation": runs.conj}.get(c["relation"])
     if c["relation"] == "equal_charge_swap":
-        print("re-run the check with the same VERIF_SEED to replay swap cases"); return 1
+        if not c.get("pair"):
+            print("replay file predates the recording of the swapped pair"); return 1
+        m = swap_map(*c["pair"])
+        c["theoryB"], c["obsB"] = c["theoryA"], c["obsA"]
     res = run_rel((c["relation"], c["observable"], c["x"], c["Q2"], c["theoryA"], c["obsA"], c["theoryB"], c["obsB"], m, c["sign"]))
     print("replay:", res)
     return 1 if res else 0
